@@ -140,6 +140,7 @@ type multiState struct {
 	wg      simrt.WaitGroup
 	pending int
 	overlap int
+	kids    bool
 }
 
 func (e *Exec) isWriter(prog []Op) bool {
@@ -164,6 +165,9 @@ func (e *Exec) runMulti() {
 		h := NewHistory()
 		for _, op := range e.c.Drivers[w] {
 			if op.Kind == "batch" {
+				if len(op.B.Kids) > 0 {
+					md.kids = true
+				}
 				h.ApplyBatch(op.B)
 			}
 		}
@@ -449,6 +453,11 @@ func (e *Exec) statsSample() {
 	limit := e.opts.MaxPreMergerBatches
 	if limit <= 0 {
 		limit = 10
+	}
+	if e.md.kids {
+		// every generated batch has one top-level segment and at most one
+		// child segment, and the gauge counts both
+		limit *= 2
 	}
 	e.out.Checks++
 	if int(st.CurDirtyTopSegments) > limit {
